@@ -89,6 +89,11 @@ class FakeRuntime:
             raise CleanupInterrupted(16, 'Device or resource busy (injected half-way through the removal)',
                                      self.container_dir)
         shutil.rmtree(self.container_dir)
+        then = _STATE.pop('finish_then', None)
+        if then is not None:
+            # the clean-up job is one process among several: another actor gets the CPU between its two steps (the
+            # container directory is gone, the cleanup link is still there)
+            then()
 
 
 def _mk_method_wrapper(name, orig):
